@@ -177,6 +177,9 @@ pub fn gen_layout(rng: &mut Rng, arch: Arch, os: Os, pol: &PolicySpec, o: &Layou
         },
     };
     classes.push(format!("base{base_class}"));
+    let gran = if os == Os::Windows { 0x10000 } else { ps };
+    let base = if os == Os::Windows && rng.chance(3, 4) { base / gran * gran } else { base };
+    let base = base.max(min_page);
     let text = vec![TextRegion { addr: base, pages: text_pages, fill_seed: rng.next_u64() }];
     // ---- first target offset inside the first page
     let al = align_of(arch);
@@ -275,6 +278,10 @@ pub fn gen_layout(rng: &mut Rng, arch: Arch, os: Os, pol: &PolicySpec, o: &Layou
                 _ => rng.range(0, 2 * pages) as i64 - pages as i64,
             };
             let mut h = tpage as i64 + d * ps as i64;
+            if os == Os::Windows {
+                // VirtualAlloc only ever returns granule-aligned addresses
+                h = h / gran as i64 * gran as i64;
+            }
             // keep the hole outside the text area and above the minimum address
             if h < min_page as i64 {
                 h = min_page as i64;
@@ -501,7 +508,7 @@ pub fn generate(profile: &str, variant: &str, seed: u64, index: u64) -> SimScena
             }
             buggify_kernel(&mut rng, &mut pol, &mut classes, false);
             if rng.chance(1, 25) {
-                pol.fail_mprotect = vec![rng.below(3)];
+                pol.fail_mprotect = vec![rng.below(3)]; // ordinal of the install whose mprotect is refused
                 classes.push("k-mprotect-fail".into());
             }
             let l = gen_layout(&mut rng, arch, os, &pol, &opts);
